@@ -65,12 +65,14 @@ def run_case(cs):
         indep = cs.get('indep', 'Start_UTC')
         f = pnc.PseudoNetCDFFile()
         f.createDimension('POINTS', st['nrec'])
-        tv = f.createVariable(indep, 'd', ('POINTS',))
+        # the independent variable is often stored narrower than the data
+        # (whole seconds as integers, single precision)
+        tv = f.createVariable(indep, cs.get('tdtype', 'd'), ('POINTS',))
         tv[:] = cs['t']
         tv.units = cs['tunit']
         for i in range(st['nv']):
             d = cs['vars'][i]
-            v = f.createVariable(d['name'], 'd', ('POINTS',),
+            v = f.createVariable(d['name'], d.get('dtype', 'd'), ('POINTS',),
                                  fill_value=d['missing'])
             v[:] = np.ma.masked_array(d['vals'], mask=d['mask'])
             v.units = d['unit']
@@ -186,13 +188,15 @@ def gen_case(rnd, st):
             nm += '_%d' % i
         vars_.append({'name': nm, 'unit': rnd.choice(['ppbv', 'K', 'hPa',
                                                        'percent']),
-                      'missing': miss, 'vals': vals, 'mask': mask})
+                      'missing': miss, 'vals': vals, 'mask': mask,
+                      'dtype': rnd.choice(['d', 'd', 'd', 'f'])})
     names = rnd.sample(ATTRS[:7], st['natt'])
     atts = [[k, rnd.choice(ATTVALS)] for k in names]
     t0 = rnd.choice([0, 36000, 86000])
     return {'st': st, 't': [t0 + 10 * k for k in range(nrec)],
             'tunit': rnd.choice(['seconds', 's']), 'vars': vars_,
             'indep': indep,
+            'tdtype': rnd.choice(['d', 'd', 'i', 'f', 'l']),
             'atts': atts,
             # scale factors of the dependent variables for the scaled-text
             # stage (half of the cases)
